@@ -64,7 +64,7 @@ def classify(stderr, status):
 MODES = ["auto", "none", "redist", "Poisson"]      # every value the RDScript setter accepts, for every engine and space
 
 
-def make_job(rng, jid, option, coarse=False, dup=False, **kw):
+def make_job(rng, jid, option, coarse=False, dup=False, mutate=None, **kw):
     job = c09.make_job(rng, jid, option, **kw)
     S = job["scripts"][0]
     info = job["info"]
@@ -112,6 +112,11 @@ def make_job(rng, jid, option, coarse=False, dup=False, **kw):
     calls = list(job["calls"])
     while calls and calls[-1]["call"] in ("simulate", "finalize"):
         calls.pop()
+    if mutate:
+        # the caller modifies the trajectory object it was just given (e.g. assigns a SMALLER system to its .script), goes on
+        # and fetches again: the engine's own buffers must not be sized from the caller's object
+        calls.append({"obj": 0, "call": "mutate_out", "what": mutate})
+        info["mutate_out"] = mutate
     calls += [{"obj": 0, "call": "sample"}, {"obj": 0, "call": "iterate"}, {"obj": 0, "call": "sample"},
               {"obj": 0, "call": "get_output", "full": False}, {"obj": 0, "call": "get_progress"},
               {"obj": 0, "call": "finalize"}, {"obj": 0, "call": "finalize"},
@@ -196,8 +201,57 @@ def checked_correspondence(ctx):
                 ctx.disagree("checked_step", case, {"next_state": x1[:8]}, {"next_state": [float(v) for v in mx[:8]]})
 
 
+def abandon_histories(ctx, n, tag="ab"):
+    """several simulations in one process mixing the space types, some ABANDONED (the next set-up follows without finalize):
+    grid finalized / graph abandoned / grid again and the mirror orders, on the plain, hardened and sanitizer builds"""
+    rng = ctx.rng
+    jobs = []
+    for i in range(n):
+        option = lc.OPTIONS[i % 3]
+        a = ["grid", "graph"][i % 2]
+        b = "graph" if a == "grid" else "grid"
+        order = [[a, b, a], [a, b, b], [b, a, b], [a, a, b]][(i // 2) % 4]
+        fin = [[True, False, True], [False, False, False], [True, False, False], [False, True, False]][(i // 3) % 4]
+        scripts, calls = [], []
+        for sp, f in zip(order, fin):
+            S, info = lc.gen_script(rng, option, space_kind=sp, max_steps=10, units=False, degenerate=rng.random() < 0.5)
+            scripts.append(S)
+            calls.append({"obj": 0, "call": "setup", "script": len(scripts) - 1})
+            calls += [{"obj": 0, "call": rng.choice(["iterate", "iterate", "sample"])} for _ in range(rng.randint(1, 3))]
+            if rng.random() < 0.5:
+                calls.append({"obj": 0, "call": "get_output", "full": False})
+            if f:
+                calls.append({"obj": 0, "call": "finalize"})
+        calls += [{"obj": 0, "call": "iterate_n", "n": 1000}, {"obj": 0, "call": "get_output", "full": False}, {"obj": 0, "call": "finalize"},
+                  {"obj": 0, "call": "finalize"}]
+        jobs.append({"id": "%s%d" % (tag, i), "engines": [option], "scripts": scripts, "calls": calls, "timeout": 20, "order": order, "finalized": fin})
+    for kind in ("plain", "hard", "asan"):
+        res = lc.run_jobs([dict(j) for j in jobs], kind=kind, chunk=1, parallel=ctx.n(8, 8), stall=ctx.n(15, 60))
+        for j in jobs:
+            r = res[j["id"]]
+            case = {"job": {k: j[k] for k in ("id", "engines", "scripts", "calls", "order", "finalized")}, "build": kind, "history": True}
+            ctx.count("abandon_histories_" + kind)
+            if kind == "plain":
+                ctx.case(("abandon", json.dumps(j["calls"]), json.dumps(j["scripts"], sort_keys=True)), nontrivial=True,
+                         sample={"op": "abandon-history", "engine": j["engines"][0], "spaces": j["order"], "finalized": j["finalized"]})
+            if r["status"] != "ok":
+                at = r["at"] if r["at"] is not None else len(r["results"])
+                call = j["calls"][at]["call"] if at < len(j["calls"]) else "end-of-job"
+                what = classify(r.get("stderr", ""), r["status"])
+                ctx.violation("%s:%s:abandoned-run" % (what, call), "%s build: %s in %s() (call %d) of a history of %s runs with finalize = %s" % (kind, what, call, at, j["order"], j["finalized"]),
+                              case, impl={"status": r["status"], "stderr": r.get("stderr", "")[-600:]}, expected="no memory error, no abort")
+                continue
+            raised = [x for x in r["results"] if "raised" in x]
+            if raised:
+                ctx.violation("raised", "a lifecycle call raised in a history of valid scripts: %s" % raised[0]["raised"], case)
+            for x in r["results"]:
+                for key, what, impl, exp in lc.init_failures(x):
+                    ctx.violation(key, "%s build: %s" % (kind, what), case, impl=impl, expected=exp)
+
+
 def run(ctx):
     explore(ctx, ctx.n(105, 3000), ctx.n(24, 600), p_degenerate=0.6, tag="m")
+    abandon_histories(ctx, ctx.n(8, 48))
     if not ctx.violations:
         checked_correspondence(ctx)
     ctx.notes.append("partial by nature: engine_never_faults is proved on the checked-access MODEL of the engine (all six algorithms, Init, "
@@ -236,7 +290,8 @@ def explore(ctx, n, n_asan, p_degenerate=0.6, tag="m", with_model=True, p_coarse
             # on_interval with t / sampling_interval beyond 2^31 (a few steps of 1 s, interval around 1 ns); always in the sanitizer subset
             kw.update(huge_ratio=True, policy="on_interval")
             coarse = False
-        jobs.append(make_job(rng, "%s%d" % (tag, i), option, coarse=coarse, dup=(rng.random() < 0.4), **kw))
+        mutate = ["script_system", "script_units", "script_system", "system_state"][(i // 4) % 4] if i % 4 == 2 else None
+        jobs.append(make_job(rng, "%s%d" % (tag, i), option, coarse=coarse, dup=(rng.random() < 0.4), mutate=mutate, **kw))
     # the sanitizer subset: first one job per (engine, space, processing mode), then jobs with repeated request times, then the rest
     first, rest = {}, []
     for j in jobs:
@@ -245,8 +300,8 @@ def explore(ctx, n, n_asan, p_degenerate=0.6, tag="m", with_model=True, p_coarse
             first[key] = j
         else:
             rest.append(j)
-    rest.sort(key=lambda j: 0 if j["info"].get("huge_ratio") else (1 if j["info"].get("duplicates") else 2))
-    huge = [j for j in rest if j["info"].get("huge_ratio")][:6]
+    rest.sort(key=lambda j: 0 if (j["info"].get("huge_ratio") or j["info"].get("mutate_out") == "script_system") else (1 if j["info"].get("duplicates") else 2))
+    huge = [j for j in rest if j["info"].get("huge_ratio") or j["info"].get("mutate_out") == "script_system"][:10]
     asan_jobs = (list(first.values()) + rest)[:max(n_asan, len(first) + len(huge))]
     ctx.count("asan_mode_engine_space_combinations", len(first))
     res = {}
@@ -262,6 +317,8 @@ def explore(ctx, n, n_asan, p_degenerate=0.6, tag="m", with_model=True, p_coarse
         ctx.count("coarse" if info.get("coarse") else "fine")
         for op in info.get("system_ops", []):
             ctx.count("system_op_" + op)
+        if info.get("mutate_out"):
+            ctx.count("returned_object_modified_" + info["mutate_out"])
         if info.get("huge_ratio"):
             ctx.count("interval_ratio_beyond_2^31_%s_%s" % (info["option"], info["space"]))
         if info.get("many_reactions"):
@@ -297,6 +354,8 @@ def explore(ctx, n, n_asan, p_degenerate=0.6, tag="m", with_model=True, p_coarse
             for x in r["results"]:
                 for key, what, impl, exp in lc.init_failures(x) + lc.edit_failures(x):
                     ctx.violation(key, "%s build: %s" % (kind, what), dict(case, build=kind), impl=impl, expected=exp)
+            for (ci, key, what, impl, exp) in lc.refetch_failures(job["calls"], r["results"]):
+                ctx.violation(key, "%s build: call %d: %s" % (kind, ci, what), dict(case, build=kind), impl=impl, expected=exp)
             outs = [x["ret"]["hash"] for c, x in zip(job["calls"], r["results"]) if c["call"] == "get_output"]
             hashes[kind] = outs
             if kind == "hard":
@@ -330,6 +389,7 @@ def replay(ctx, rec):
     case = rec.get("case", rec)
     job = dict(case["job"])
     kind = case.get("build", "hard")
+    job.setdefault("timeout", 20)
     res = lc.run_jobs([job], kind=kind, parallel=1, stall=60)
     r = res[str(job["id"])]
     detail = {"build": kind, "status": r["status"], "at": r["at"], "stderr": r.get("stderr", "")[-800:]}
@@ -337,6 +397,7 @@ def replay(ctx, rec):
         detail["class"] = classify(r.get("stderr", ""), r["status"])
         return False, detail
     inits = [f for x in r["results"] for f in lc.init_failures(x) + lc.edit_failures(x)]
+    inits += [(f[1], f[2]) for f in lc.refetch_failures(job["calls"], r["results"])]
     if inits:
         detail["marshalling"] = [{"key": f[0], "what": f[1]} for f in inits[:3]]
         return False, detail
